@@ -703,7 +703,30 @@ _reg("numpy.square", elementwise(lambda x: x * x))
 _reg("numpy.angle", h_angle)
 _reg("numpy.rad2deg numpy.degrees math.degrees", lambda I, a, k, st, n: lift2("*", h_identity(I, a, k, st, n), X.const(180) / _pi()))
 _reg("numpy.deg2rad numpy.radians math.radians", lambda I, a, k, st, n: lift2("*", h_identity(I, a, k, st, n), _pi() / X.const(180)))
-_reg("numpy.unwrap", elementwise(lambda x: mk_fn("unwrap", [x], "real")))
+def unwrap_form(x, period=None, discont=None):
+    """np.unwrap(x, discont, period) = period * U(x / period [, discont / period]) with U the unit-period unwrapping (2*pi is the default period;
+    a discont of at most half a period is the default behaviour).  The scaling law unwrap(c x, c P) = c unwrap(x, P) is built into the form."""
+    P = period if period is not None else X.const(2) * X.var("pi")
+    t = x / P
+    if discont is not None:
+        try:
+            r = (discont / P).constval()
+            if r is None or r.im != 0 or r.re > Fr(1, 2): return P * mk_fn("unwrap1d", [t, discont / P], "real")
+        except Unknown:
+            return P * mk_fn("unwrap1d", [t, discont / P], "real")
+    return P * mk_fn("unwrap1", [t], "real")
+
+
+def h_unwrap(I, args, kw, st, n):
+    if kw.get("axis") is not None or len(args) > 2: return Opaque("np.unwrap(axis=)")
+    period = to_x(kw["period"]) if kw.get("period") is not None else None
+    dc = kw.get("discont", args[1] if len(args) > 1 else None)
+    discont = to_x(dc) if dc is not None else None
+    if (kw.get("period") is not None and period is None) or (dc is not None and discont is None): return Opaque("np.unwrap parameters")
+    return elementwise(lambda x: unwrap_form(x, period, discont))(I, args[:1], {}, st, n)
+
+
+_reg("numpy.unwrap", h_unwrap)
 _reg("numpy.round numpy.rint numpy.around builtins.round", h_round)
 _reg("builtins.int numpy.int64 numpy.int32 numpy.intp", h_int)
 _reg("builtins.float numpy.float64 numpy.float32", h_float)
